@@ -182,7 +182,15 @@ pub fn modsoup(g: &mut Gen) -> String {
         for _ in 0..n {
             let pad = " ".repeat(ind);
             let vis = if g.coin() { "pub " } else { "" };
-            match g.weighted(&[if depth < 2 { 4 } else { 0 }, 4, 5, 2, 1, 1]) {
+            match g.weighted(&[if depth < 2 { 4 } else { 0 }, 4, 5, 2, 1, 1, 2, 2]) {
+                6 => {
+                    // type aliases over a two-name pool: several modules declare the same short name
+                    // (right-hand sides are concrete: an alias that names an alias of the same short name inside a
+                    // module is the recorded finding C04-module-alias-cycle-overflow)
+                    let rhs = *g.pick(&["float", "(float, float)", "(float, float, float)", "{p: float, q: float}"][..]);
+                    out.push_str(&format!("{pad}{vis}type alias {} = {rhs}\n", g.pick(&["P", "Q"][..])));
+                }
+                7 => out.push_str(&format!("{pad}{vis}fn {}(v: {}) {{ v }}\n", g.pick(NAMES), g.pick(&["P", "Q", "float"][..]))),
                 0 => {
                     out.push_str(&format!("{pad}{vis}mod {} {{\n", g.pick(NAMES)));
                     items(g, depth + 1, out, ind + 2);
